@@ -1,4 +1,4 @@
-import RV.C10.GraphOps
+import RV.C10.Fresh
 /-
   C10 — property statements and theorems.
 
@@ -61,14 +61,6 @@ def inTarget : Target → GName → Prop
 
 end Spec
 
-/-! ## Invariants of the store (what the Memory store guarantees) -/
-
-/-- every named graph that holds a quad is registered (`Memory.add` registers the context) -/
-def KnownInv (s : St) : Prop := ∀ q ∈ s.quads, ∀ g, q.graph = some g → g ∈ s.known
-
-/-- a plain Graph holds triples of one graph only -/
-def SingleInv (c : Cfg) (s : St) : Prop := c.single = true → ∀ q ∈ s.quads, q.graph = none
-
 /-! ## Statements -/
 
 /-- `_fillTemplate` produces exactly Dataset(QuadPattern, μ): a template quad with an unbound variable,
@@ -113,6 +105,9 @@ def Statement_modify_interleaved_same (c : Cfg) (u : Modify) (s : St) : Prop :=
     a later one -/
 def NoLaterDeletion (c : Cfg) (u : Modify) (s : St) : Prop :=
   (solPairs u.del u.ins u.withG (u.solutions c s) s.next).Pairwise (fun a b => ∀ y ∈ a.2, y ∉ b.1)
+
+instance (c : Cfg) (u : Modify) (s : St) : Decidable (NoLaterDeletion c u s) := by
+  unfold NoLaterDeletion; infer_instance
 
 /-- DELETE WHERE: solutions are those of the state before the first deletion -/
 def Statement_delete_where_snapshot : Prop :=
@@ -287,5 +282,400 @@ theorem modify_spec : Statement_modify_spec := by
     · next del ins =>
       rw [mem_foldl_insertSolution, foldl_deleteSolution_next, mem_foldl_deleteSolution]
       simp only [mem_fillTemplate_spec, alookup_nil, not_exists, not_and, solMap]
+
+/-! ### the per-solution loop of the pinned code -/
+
+/-- witness: the 2-cycle {a p b, b p a} with DELETE { ?x p ?y } INSERT { ?y p ?x } WHERE { ?x p ?y } -/
+def cycleStore : St := ⟨[(.iri 1, .iri 4, .iri 2, none), (.iri 2, .iri 4, .iri 1, none)], [], 0⟩
+def swapModify : Modify :=
+  { withG := none,
+    del := some [((.var 40, .const (.iri 4), .var 41), .dflt)],
+    ins := some [((.var 41, .const (.iri 4), .var 40), .dflt)],
+    using_ := [], named := [],
+    where_ := [(.dflt, [(.var 40, .const (.iri 4), .var 41)])], flt := none }
+def plainGraph : Cfg := ⟨.graph, true⟩
+
+/-- the pinned loop loses a triple on the witness (the repaired code keeps both) -/
+theorem modify_interleaved_witness :
+    ¬ Statement_modify_interleaved_same plainGraph swapModify cycleStore := by
+  intro h
+  have := (h (.iri 2, .iri 4, .iri 1, none)).2 (by decide)
+  revert this
+  decide
+
+/-- non-vacuity of the witness: the repaired code returns both triples -/
+example : (evalModify plainGraph swapModify cycleStore).quads =
+    [(.iri 2, .iri 4, .iri 1, none), (.iri 1, .iri 4, .iri 2, none)] := by decide
+example : (evalModifyInterleaved plainGraph swapModify cycleStore).quads =
+    [(.iri 1, .iri 4, .iri 2, none)] := by decide
+example : ¬ NoLaterDeletion plainGraph swapModify cycleStore := by decide
+
+/-- per-solution loop = two passes whenever no earlier insertion is a later deletion -/
+theorem modify_interleaved_partial (c : Cfg) (u : Modify) (s : St) :
+    NoLaterDeletion c u s → Statement_modify_interleaved_same c u s := by
+  intro h x
+  rw [evalModifyInterleaved_eq_onePass, evalModify_eq_twoPass, mem_onePass, mem_twoPass]
+  exact memInter_eq_twoPass _ _ h x
+
+/-- non-vacuity: a request with two solutions that satisfies the hypothesis -/
+example : NoLaterDeletion plainGraph
+    { swapModify with ins := some [((.var 40, .const (.iri 5), .var 41), .dflt)] } cycleStore := by decide
+
+/-! ### DELETE WHERE, INSERT DATA, DELETE DATA -/
+
+theorem delete_where_snapshot : Statement_delete_where_snapshot := by
+  intro c bs s x
+  unfold evalDeleteWhere
+  rw [mem_foldl_deleteSolution]
+  simp only [mem_fillTemplate_spec, alookup_nil, not_exists, not_and]
+
+theorem insert_data_spec : Statement_insert_data_spec := by
+  intro tpl s x
+  unfold evalInsertData
+  rw [mem_insertSolution, mem_fillTemplate_spec]
+
+theorem delete_data_spec : Statement_delete_data_spec := by
+  intro tpl s x
+  unfold evalDeleteData
+  rw [mem_deleteSolution, mem_fillTemplate_spec, alookup_nil]
+
+/-! ### graph management -/
+
+theorem clear_spec : Statement_clear_spec := by
+  intro c t s x hk hs
+  unfold evalClear
+  rw [mem_foldl_clearGraph]
+  constructor
+  · rintro ⟨hx, hg⟩
+    refine ⟨hx, ?_⟩
+    intro ht
+    apply hg
+    cases t with
+    | dflt => simp only [Spec.inTarget] at ht; simp [clearTargets, ht]
+    | named =>
+      simp only [Spec.inTarget] at ht
+      cases hgx : x.graph with
+      | none => exact absurd hgx ht
+      | some g =>
+        have hsingle : c.single = false := by
+          cases hc : c.single with
+          | false => rfl
+          | true => have := hs hc x hx; rw [hgx] at this; cases this
+        simp only [clearTargets, hsingle, Bool.false_eq_true, if_false, List.mem_map, Option.some.injEq,
+          exists_eq_right]
+        exact hk x hx g hgx
+    | all =>
+      cases hc : c.single with
+      | true => simp [clearTargets, hc, hs hc x hx]
+      | false =>
+        cases hgx : x.graph with
+        | none => simp [clearTargets, hc]
+        | some g => simp [clearTargets, hc]; exact hk x hx g hgx
+    | graph n => simp only [Spec.inTarget] at ht; simp [clearTargets, ht]
+  · rintro ⟨hx, hg⟩
+    refine ⟨hx, ?_⟩
+    intro hm
+    apply hg
+    cases t with
+    | dflt => simpa [clearTargets, Spec.inTarget] using hm
+    | named =>
+      simp only [Spec.inTarget]
+      cases hc : c.single with
+      | true => simp [clearTargets, hc] at hm
+      | false =>
+        simp only [clearTargets, hc, Bool.false_eq_true, if_false, List.mem_map] at hm
+        obtain ⟨g, _, hg'⟩ := hm
+        rw [← hg']; simp
+    | all => trivial
+    | graph n => simpa [clearTargets, Spec.inTarget] using hm
+
+theorem drop_spec : Statement_drop_spec := by
+  intro c t s x hk hs
+  unfold evalDrop
+  split
+  · exact clear_spec c t s x hk hs
+  · have h := clear_spec c t s x hk hs
+    unfold evalClear at h
+    rw [mem_foldl_clearGraph] at h
+    rw [mem_foldl_dropGraph]
+    exact h
+
+theorem add_spec : Statement_add_spec := by
+  intro src dst s x
+  unfold evalAdd
+  split
+  · next h =>
+    subst h
+    constructor
+    · exact Or.inl
+    · rintro (h | ⟨hg, h⟩)
+      · exact h
+      · obtain ⟨a, b, c, d⟩ := x
+        simp only [Quad.graph] at hg
+        subst hg; exact h
+  · exact mem_copyInto s src dst x
+
+theorem copy_spec : Statement_copy_spec := by
+  intro src dst s x
+  unfold evalCopy
+  split
+  · next h =>
+    subst h
+    constructor
+    · intro h
+      by_cases hg : x.graph = src
+      · refine Or.inr ⟨hg, ?_⟩
+        obtain ⟨a, b, c, d⟩ := x
+        simp only [Quad.graph] at hg
+        subst hg; exact h
+      · exact Or.inl ⟨hg, h⟩
+    · rintro (⟨_, h⟩ | ⟨hg, h⟩)
+      · exact h
+      · obtain ⟨a, b, c, d⟩ := x
+        simp only [Quad.graph] at hg
+        subst hg; exact h
+  · next hne =>
+    rw [mem_copyInto, mem_clearGraph, mem_clearGraph]
+    simp only [Quad.graph]
+    constructor
+    · rintro (⟨h1, h2⟩ | ⟨h1, h2, _⟩)
+      · exact Or.inl ⟨h2, h1⟩
+      · exact Or.inr ⟨h1, h2⟩
+    · rintro (⟨h1, h2⟩ | ⟨h1, h2⟩)
+      · exact Or.inl ⟨h2, h1⟩
+      · exact Or.inr ⟨h1, h2, hne⟩
+
+theorem move_spec : Statement_move_spec := by
+  intro src dst s x
+  unfold evalMove
+  split
+  · next h =>
+    subst h
+    constructor
+    · intro h
+      by_cases hg : x.graph = src
+      · refine Or.inr ⟨hg, ?_⟩
+        obtain ⟨a, b, c, d⟩ := x
+        simp only [Quad.graph] at hg
+        subst hg; exact h
+      · exact Or.inl ⟨hg, hg, h⟩
+    · rintro (⟨_, _, h⟩ | ⟨hg, h⟩)
+      · exact h
+      · obtain ⟨a, b, c, d⟩ := x
+        simp only [Quad.graph] at hg
+        subst hg; exact h
+  · next hne =>
+    rw [mem_dropGraph, mem_copyInto, mem_clearGraph, mem_clearGraph]
+    simp only [Quad.graph]
+    constructor
+    · rintro ⟨(⟨h1, h2⟩ | ⟨h1, h2, _⟩), h3⟩
+      · exact Or.inl ⟨h2, h3, h1⟩
+      · exact Or.inr ⟨h1, h2⟩
+    · rintro (⟨h1, h2, h3⟩ | ⟨h1, h2⟩)
+      · exact ⟨Or.inl ⟨h3, h1⟩, h2⟩
+      · refine ⟨Or.inr ⟨h1, h2, hne⟩, ?_⟩
+        rw [h1]; exact fun e => hne e.symm
+
+/-! ### requests -/
+
+theorem request_in_order : Statement_request_in_order := by
+  intro c u₁ u₂ s
+  simp [runRequest, List.foldl_append]
+
+theorem failed_aborts : Statement_failed_aborts := by
+  intro c ops
+  induction ops with
+  | nil => intro r _; rfl
+  | cons op rest ih =>
+    intro r hr
+    rw [List.foldl_cons]
+    have : Run.step c r op = r := by simp [Run.step, hr]
+    rw [this]
+    exact ih r hr
+
+/-! ### the default-graph-is-union switch -/
+
+theorem union_switch_reads : Statement_union_switch_reads := by
+  intro c s t
+  constructor
+  · simp only [storeDataset, Cfg.effUnion, Bool.and_eq_true, Bool.or_eq_true, decide_eq_true_eq]
+    split
+    · next h =>
+      rw [if_pos ⟨h.1, by rcases h.2 with (h | h) | h <;> simp [h]⟩]
+      exact mem_unionTriples
+    · next h =>
+      rw [if_neg (by rintro ⟨h1, h2 | h2 | h2⟩ <;> exact h ⟨h1, by simp [h2]⟩)]
+      exact mem_graphTriples
+  · intro w
+    simp only [storeDataset]
+    exact mem_graphTriples
+
+theorem union_reads_once (c : Cfg) (s : St) (w : Option Nat) (h : s.quads.Nodup) :
+    (storeDataset c s w).dflt.Nodup := by
+  have key : ∀ g, (graphTriples s.quads g).Nodup := fun g => nodup_graphTriples h g
+  simp only [storeDataset]
+  cases w with
+  | some g => exact key _
+  | none =>
+    simp only
+    split
+    · exact nodup_dedup _
+    · exact key _
+
+theorem union_switch_writes : Statement_union_switch_writes := by
+  constructor
+  · intro c c' op s hapi hm hd
+    have hsingle : c.single = c'.single := by simp [Cfg.single, hapi]
+    unfold evalOp
+    rw [hsingle]
+    split
+    · rfl
+    · congr 1
+      cases op with
+      | modify u =>
+        simp only
+        unfold evalModify
+        rw [hm u rfl]
+      | deleteWhere bs =>
+        simp only
+        unfold evalDeleteWhere
+        rw [hd bs rfl]
+      | clear sl t => simp only [evalClear, clearTargets, hsingle]
+      | drop sl t => simp only [evalDrop, evalClear, clearTargets, hsingle]
+      | _ => rfl
+  · intro μ bm tgt t x h
+    have := (fillQuad_eq_some μ bm tgt (t, .dflt) x).1 h
+    have hg := this.2.2.2.1
+    simp only [instGraph, Option.some.injEq] at hg
+    exact hg.symm
+
+/-! ### untouched graphs -/
+
+theorem untouched_graphs_unchanged : Statement_untouched_graphs_unchanged := by
+  intro c op s s' x h hx
+  unfold evalOp at h
+  split at h
+  · cases h
+  · simp only [Option.some.injEq] at h
+    subst h
+    cases op with
+    | insertData q =>
+      simp only [Op.targets] at hx
+      simp only [evalInsertData]
+      rw [mem_insertSolution]
+      constructor
+      · rintro (h | h)
+        · exact h
+        · exact absurd (graph_mem_of_fillTemplate _ _ _ _ _ h) hx
+      · exact Or.inl
+    | deleteData q =>
+      simp only [Op.targets] at hx
+      simp only [evalDeleteData]
+      rw [mem_deleteSolution]
+      constructor
+      · exact fun h => h.1
+      · exact fun h => ⟨h, fun h' => hx (graph_mem_of_fillTemplate _ _ _ _ _ h')⟩
+    | deleteWhere bs =>
+      simp only [Op.targets, List.mem_flatMap, not_exists, not_and] at hx
+      simp only [evalDeleteWhere]
+      rw [mem_foldl_deleteSolution]
+      constructor
+      · exact fun h => h.1
+      · exact fun h => ⟨h, fun μ hμ h' => hx μ hμ (graph_mem_of_fillTemplate _ _ _ _ _ h')⟩
+    | modify u =>
+      simp only [Op.targets, List.mem_flatMap, not_exists, not_and, List.filterMap_append, List.mem_append,
+        not_or] at hx
+      simp only
+      rw [evalModify_eq_twoPass, mem_twoPass]
+      constructor
+      · rintro (h | ⟨p, hp, h⟩)
+        · exact h.1
+        · exfalso
+          obtain ⟨μ, hμ, n', rfl⟩ := mem_solPairs _ _ _ _ _ _ hp
+          cases hi : u.ins with
+          | none => simp [insOf, hi] at h
+          | some tpl =>
+            simp only [insOf, hi] at h
+            exact (hx μ hμ).2 (by simpa [hi] using graph_mem_of_fillTemplate _ _ _ _ _ h)
+      · intro h
+        refine Or.inl ⟨h, ?_⟩
+        intro p hp hd
+        obtain ⟨μ, hμ, n', rfl⟩ := mem_solPairs _ _ _ _ _ _ hp
+        cases hdel : u.del with
+        | none => simp [delOf, hdel] at hd
+        | some tpl =>
+          simp only [delOf, hdel] at hd
+          exact (hx μ hμ).1 (by simpa [hdel] using graph_mem_of_fillTemplate _ _ _ _ _ hd)
+    | clear sl t =>
+      simp only [Op.targets] at hx
+      simp only [evalClear]
+      rw [mem_foldl_clearGraph]
+      exact ⟨fun h => h.1, fun h => ⟨h, hx⟩⟩
+    | drop sl t =>
+      simp only [Op.targets] at hx
+      simp only [evalDrop, evalClear]
+      split
+      · rw [mem_foldl_clearGraph]
+        exact ⟨fun h => h.1, fun h => ⟨h, hx⟩⟩
+      · rw [mem_foldl_dropGraph]
+        exact ⟨fun h => h.1, fun h => ⟨h, hx⟩⟩
+    | add sl a b =>
+      simp only [Op.targets, List.mem_singleton] at hx
+      simp only
+      rw [add_spec]
+      exact ⟨fun h => h.elim id (fun h' => absurd h'.1 hx), Or.inl⟩
+    | copy sl a b =>
+      simp only [Op.targets, List.mem_singleton] at hx
+      simp only
+      rw [copy_spec]
+      exact ⟨fun h => h.elim (fun h' => h'.2) (fun h' => absurd h'.1 hx), fun h => Or.inl ⟨hx, h⟩⟩
+    | move sl a b =>
+      simp only [Op.targets, List.mem_cons, List.not_mem_nil, or_false, not_or] at hx
+      simp only
+      rw [move_spec]
+      exact ⟨fun h => h.elim (fun h' => h'.2.2) (fun h' => absurd h'.1 hx.2), fun h => Or.inl ⟨hx.2, hx.1, h⟩⟩
+
+/-! ### invariants along a request -/
+
+/-- the store invariants the graph-management specs rely on (`KnownInv`: every named graph holding a quad is
+    registered; no duplicate quads; a plain Graph holds one graph) hold after every request -/
+def Statement_store_invariants : Prop :=
+  ∀ (c : Cfg) (ops : List Op) (s : St), Inv c s → Inv c (runRequest c ops s).st
+
+theorem store_invariants : Statement_store_invariants := by
+  intro c ops s h
+  exact inv_foldl_step c ops _ h
+
+example (c : Cfg) : Inv c ⟨[], [], 0⟩ := by
+  refine ⟨?_, List.nodup_nil, ?_⟩
+  · intro q hq; cases hq
+  · intro _ q hq; cases hq
+
+/-- minted blank nodes are new: along any request whose text mentions no minted node (it cannot: they have
+    no spelling), every minted node in the store is numbered below the supply counter and the counter never
+    decreases — and `modify_spec` / `fresh_per_solution` hand out nodes at or above the counter only. -/
+def Statement_minted_nodes_new : Prop :=
+  ∀ (c : Cfg) (ops : List Op) (s : St), (∀ op ∈ ops, op.wf) → FreshInv s →
+    FreshInv (runRequest c ops s).st ∧ s.next ≤ (runRequest c ops s).st.next
+
+theorem minted_nodes_new : Statement_minted_nodes_new := by
+  intro c ops s hw h
+  have key : ∀ (ops : List Op) (r : Run), (∀ op ∈ ops, op.wf) → FreshInv r.st →
+      FreshInv (ops.foldl (Run.step c) r).st ∧ r.st.next ≤ (ops.foldl (Run.step c) r).st.next := by
+    intro ops
+    induction ops with
+    | nil => intro r _ h; exact ⟨h, Nat.le_refl _⟩
+    | cons op rest ih =>
+      intro r hw h
+      have hstep : FreshInv (r.step c op).st ∧ r.st.next ≤ (r.step c op).st.next := by
+        unfold Run.step
+        split
+        · exact ⟨h, Nat.le_refl _⟩
+        · split
+          · next s' e => exact freshInv_evalOp c op (hw op List.mem_cons_self) r.st s' h e
+          · exact ⟨h, Nat.le_refl _⟩
+      have := ih (r.step c op) (fun o ho => hw o (List.mem_cons_of_mem _ ho)) hstep.1
+      exact ⟨this.1, Nat.le_trans hstep.2 this.2⟩
+  exact key ops _ hw h
 
 end RV.C10
